@@ -51,16 +51,7 @@ var libRules = map[string]graphql.ValidationRuleFn{
 
 // Schema is the kitchen schema plus fields with a required argument and one argument of
 // every input type shape.
-func Schema() *gen.Schema {
-	s := gen.Kitchen()
-	q := s.Types["Query"]
-	q.Fields = append(q.Fields,
-		gen.F("r(q:Int!):String"),
-		gen.F("g(i:Int,fl:Float,s:String,id:ID,bo:Boolean,c:Custom,e:E,li:[Int],ln:[Int!]!,ll:[[Int]],in:In,lin:[In!]):String"))
-	o := s.Types["O"]
-	o.Fields = append(o.Fields, gen.F("r(q:Int!,d:Int=3):String"))
-	return s
-}
+func Schema() *gen.Schema { return gen.KitchenArgs() }
 
 type env struct {
 	c *core.Ctx
